@@ -216,16 +216,28 @@ def predicate_suite(chk, w, rule, nmax, order_pairs=((1, 1), (2, 0), (0, 3)), ns
         for n in _ns(2, nmax, ns):
             grid = w.need_grid(w.grid_values(n))
             grid2 = w.need_grid(w.grid_values(n))
-            for wa in windows(n):
-                a = w.spline_on("a", A, grid, *wa)
-                for wb in windows(n):
-                    for label, gb in (("same-object", grid), ("equal-distinct-object", grid2)):
-                        b = w.spline_on("b", B, gb, *wb)
-                        o = w.call(f, a, [box(b)])
-                        inter = spec_intersection(wa, wb)
-                        share = inter[1] - inter[0] >= 2
-                        cs.expect(f, "checkOverlap <=> the supports share at least one interval",
-                                  dict(orders=(A, B), n=n, a=wa, b=wb, grids=label), o, is_bool(o, share), str(share))
+            # the answer is a property of the two windows, not of the stored values: decided with exact all-zero and
+            # all-one coefficients first (a predicate that consults the values is decidable there), then with opaque ones
+            disagreed = False
+            for cmode in (0, 1, None):
+                if cmode is None and disagreed:
+                    continue   # already reported; opaque values would only leave the fragment
+                for wa in windows(n):
+                    a = w.spline_on("a", A, grid, *wa, value=cmode)
+                    for wb in windows(n):
+                        for label, gb in (("same-object", grid), ("equal-distinct-object", grid2)):
+                            if cmode is not None and label != "same-object":
+                                continue
+                            b = w.spline_on("b", B, gb, *wb, value=cmode)
+                            o = w.call(f, a, [box(b)])
+                            inter = spec_intersection(wa, wb)
+                            share = inter[1] - inter[0] >= 2
+                            ok = is_bool(o, share)
+                            disagreed = disagreed or not ok
+                            case = dict(orders=(A, B), n=n, a=wa, b=wb, grids=label)
+                            if cmode is not None:
+                                case["all_coefficients"] = cmode
+                            cs.expect(f, "checkOverlap <=> the supports share at least one interval", case, o, ok, str(share))
     # isZero
     for order in (0, 1):
         cls = w.spline_cls(order)
